@@ -9,7 +9,13 @@
      armed     = absolute instant at which the timerfd becomes readable (None = disarmed or the
                  expiration has been read); arm_at = instant of the last successful settime
      next_seq  = Timer::s_numCreated_ (never reused); clk = the (virtual) gettimeofday clock
-     pending   = functors queued by foreign threads (EventLoop::pendingFunctors_)
+     pending   = EventLoop::pendingFunctors_ : the timer functors queued by foreign threads
+                 (addTimerInLoop / cancelInLoop) and user functors that perform loop-thread ops
+     inflight  = Timer objects a foreign thread has allocated in addTimer (new Timer, sequence read:
+                 the id is known) but not yet handed to the loop (before its queueInLoop)
+   Foreign-thread calls are sequences of micro-steps that interleave freely with the loop thread
+   (DESIGN 3.2): addTimer = CFNew ; CFEnq (CFAdd = both with nothing in between), cancel = CFCancel;
+   each micro-step is atomic in the code (the atomic counter / the mutex-guarded push_back).
    Time is integer microseconds.  No proofs in this file. *)
 From Coq Require Import List ZArith Bool.
 From Muduo Require Import Gen_Consts Gen_C06.
@@ -60,30 +66,36 @@ Fixpoint hdel (a : Z) (h : heap_t) : heap_t :=
 Definition hput (a : Z) (o : tobj) (h : heap_t) : heap_t := (a, o) :: hdel a h.
 
 (* ---------------------------------------------------------------- state, ops, events *)
-Inductive pfun := PAdd (addr : Z) | PCancel (addr seq : Z).
-
-Record state := mkS {
-  heap : heap_t; timers : list key; active : list key; canceling : list key;
-  calling : bool; armed : option Z; arm_at : Z; next_seq : Z; clk : Z; pending : list pfun }.
-
-Definition init (clk0 : Z) : state := mkS [] [] [] [] false None 0 0 clk0 [].
-
-Definition set_heap st h := mkS h (timers st) (active st) (canceling st) (calling st) (armed st) (arm_at st) (next_seq st) (clk st) (pending st).
-Definition set_sets st t a := mkS (heap st) t a (canceling st) (calling st) (armed st) (arm_at st) (next_seq st) (clk st) (pending st).
-Definition set_canceling st c := mkS (heap st) (timers st) (active st) c (calling st) (armed st) (arm_at st) (next_seq st) (clk st) (pending st).
-Definition set_calling st b := mkS (heap st) (timers st) (active st) (canceling st) b (armed st) (arm_at st) (next_seq st) (clk st) (pending st).
-Definition set_arm st a t := mkS (heap st) (timers st) (active st) (canceling st) (calling st) a t (next_seq st) (clk st) (pending st).
-Definition set_seq st n := mkS (heap st) (timers st) (active st) (canceling st) (calling st) (armed st) (arm_at st) n (clk st) (pending st).
-Definition set_clk st c := mkS (heap st) (timers st) (active st) (canceling st) (calling st) (armed st) (arm_at st) (next_seq st) c (pending st).
-Definition set_pending st p := mkS (heap st) (timers st) (active st) (canceling st) (calling st) (armed st) (arm_at st) (next_seq st) (clk st) p.
-
-(* what a timer callback (or the loop thread between two loop events) may do *)
+(* what a timer callback / a user functor (or the loop thread between two loop events) may do, and the
+   micro-steps of foreign threads that may land in between *)
 Inductive cbop :=
 | CTick (d : Z)                     (* virtual time passes *)
 | CAdd (when iv addr : Z)           (* runAt/runAfter/runEvery on the loop thread; addr = the allocator's choice *)
 | CCancel (addr seq : Z)            (* cancel(TimerId(addr, seq)) on the loop thread *)
-| CFAdd (when iv addr : Z)          (* a foreign thread's add: new Timer + queueInLoop (hand-off) *)
-| CFCancel (addr seq : Z).          (* a foreign thread's cancel: queueInLoop *)
+| CFAdd (when iv addr : Z)          (* a foreign thread's add, no other step in between: CFNew ; CFEnq *)
+| CFCancel (addr seq : Z)           (* a foreign thread's cancel: queueInLoop(cancelInLoop(id)) *)
+| CFNew (when iv addr : Z)          (* foreign addTimer, 1st micro-step: new Timer + timer->sequence(): the id is known *)
+| CFEnq (addr : Z)                  (* foreign addTimer, 2nd micro-step: queueInLoop(addTimerInLoop(timer)) *)
+| CQueue (cs : list cbop).          (* queueInLoop of a user functor that performs cs on the loop thread *)
+Inductive pfun := PAdd (addr : Z) | PCancel (addr seq : Z) | PUser (cs : list cbop).
+
+Record state := mkS {
+  heap : heap_t; timers : list key; active : list key; canceling : list key;
+  calling : bool; armed : option Z; arm_at : Z; next_seq : Z; clk : Z; pending : list pfun;
+  inflight : list Z }.
+
+Definition init (clk0 : Z) : state := mkS [] [] [] [] false None 0 0 clk0 [] [].
+
+Definition set_heap st h := mkS h (timers st) (active st) (canceling st) (calling st) (armed st) (arm_at st) (next_seq st) (clk st) (pending st) (inflight st).
+Definition set_sets st t a := mkS (heap st) t a (canceling st) (calling st) (armed st) (arm_at st) (next_seq st) (clk st) (pending st) (inflight st).
+Definition set_canceling st c := mkS (heap st) (timers st) (active st) c (calling st) (armed st) (arm_at st) (next_seq st) (clk st) (pending st) (inflight st).
+Definition set_calling st b := mkS (heap st) (timers st) (active st) (canceling st) b (armed st) (arm_at st) (next_seq st) (clk st) (pending st) (inflight st).
+Definition set_arm st a t := mkS (heap st) (timers st) (active st) (canceling st) (calling st) a t (next_seq st) (clk st) (pending st) (inflight st).
+Definition set_seq st n := mkS (heap st) (timers st) (active st) (canceling st) (calling st) (armed st) (arm_at st) n (clk st) (pending st) (inflight st).
+Definition set_clk st c := mkS (heap st) (timers st) (active st) (canceling st) (calling st) (armed st) (arm_at st) (next_seq st) c (pending st) (inflight st).
+Definition set_pending st p := mkS (heap st) (timers st) (active st) (canceling st) (calling st) (armed st) (arm_at st) (next_seq st) (clk st) p (inflight st).
+Definition set_inflight st l := mkS (heap st) (timers st) (active st) (canceling st) (calling st) (armed st) (arm_at st) (next_seq st) (clk st) (pending st) l.
+
 Inductive op :=
 | Cb (c : cbop)
 | Fire (script : list (list cbop))  (* TimerQueue::handleRead at the current clock; script = per expired timer, in batch order, what its callback does *)
@@ -173,6 +185,10 @@ Definition alloc (st : state) (when iv addr : Z) : result (state * Z) :=
        Ok (set_seq (set_heap st ((addr, mkT s when iv) :: heap st)) s, s)
   else Rejected.
 
+Fixpoint zmem (a : Z) (l : list Z) : bool := match l with [] => false | b :: r => (a =? b) || zmem a r end.
+Fixpoint zremove (a : Z) (l : list Z) : list Z :=
+  match l with [] => [] | b :: r => if a =? b then r else b :: zremove a r end.
+
 Definition cb_step (st : state) (c : cbop) : result (state * list event) :=
   match c with
   | CTick d => if d <? 0 then Rejected else Ok (set_clk st (clk st + d), [])
@@ -186,6 +202,14 @@ Definition cb_step (st : state) (c : cbop) : result (state * list event) :=
       '(st1, s) <- alloc st when iv addr ;;
       Ok (set_pending st1 (pending st1 ++ [PAdd addr]), [EAdd s addr when iv])
   | CFCancel a s => Ok (set_pending st (pending st ++ [PCancel a s]), [])
+  | CFNew when iv addr =>
+      '(st1, s) <- alloc st when iv addr ;;
+      Ok (set_inflight st1 (inflight st1 ++ [addr]), [EAdd s addr when iv])
+  | CFEnq addr =>
+      if zmem addr (inflight st)
+      then Ok (set_pending (set_inflight st (zremove addr (inflight st))) (pending st ++ [PAdd addr]), [])
+      else Rejected
+  | CQueue cs => Ok (set_pending st (pending st ++ [PUser cs]), [])
   end.
 
 (* the body of one callback: a rejected op is skipped *)
@@ -261,7 +285,8 @@ Definition fire (st0 : state) (script : list (list cbop)) : result (state * list
       else Ok (st, evs)
   end.
 
-(* EventLoop::doPendingFunctors restricted to the timer functors *)
+(* EventLoop::doPendingFunctors: the timer functors and user functors (whose ops, and the foreign
+   micro-steps landing between two functors, are given by their script) *)
 Fixpoint run_functors (st : state) (fs : list pfun) : result (state * list event) :=
   match fs with
   | [] => Ok (st, [])
@@ -269,6 +294,8 @@ Fixpoint run_functors (st : state) (fs : list pfun) : result (state * list event
       '(st1, e1) <- add_in_loop st a ;; '(st2, e2) <- run_functors st1 r ;; Ok (st2, e1 ++ e2)
   | PCancel a s :: r =>
       st1 <- cancel_in_loop st a s ;; run_functors st1 r
+  | PUser cs :: r =>
+      '(st1, e1) <- cb_run st cs ;; '(st2, e2) <- run_functors st1 r ;; Ok (st2, e1 ++ e2)
   end.
 
 Definition step (st : state) (o : op) : result (state * list event) :=
